@@ -14,7 +14,8 @@ struct StreamRef {
   int nlinks = 0;
   std::vector<int64_t> boundaries;      // sorted global page-boundary positions (link starts and page granules)
   bool damaged = false;
-  bool hole = false; int64_t hole_lo = 0, hole_hi = 0, hole_w = 0;   // C11 at the vorbisfile level: exactly one audio page of an otherwise intact stream is lost/rejected/repeated; reads that end before hole_lo or start at/after hole_hi must be exact, position included
+  bool hole = false; int64_t hole_lo = 0, hole_hi = 0, hole_w = 0, hole_at = 0;   // hole_at: position of the last page in front of the gap (a reader meets the gap about there)
+    // C11 at the vorbisfile level: exactly one audio page of an otherwise intact stream is lost/rejected/repeated; reads that end before hole_lo or start at/after hole_hi must be exact, position included
   bool has_bs64 = false;        // some link has 64-sample short blocks: switching half rate on must be refused
   bool bs64_rewritten = false;  // ... and it is a header-rewritten encoder link, whose positions are not consistent (DESIGN 13.2); a crafted link with genuine 64-sample blocks is exact
   bool ambiguous_cut = false;           // a cut link whose audio sits on a single page: start offset and end trim cannot be told apart from page granules
